@@ -24,7 +24,16 @@ SigSt(s)     == [i \in 1..Len(s) |-> <<s[i][1], s[i][2]>>]
 MarksOf(log) == [i \in 1..Len(log) |-> log[i][4]]
 AMarks(s)    == [i \in 1..Len(s) |-> s[i][3]]
 
+(* static builds (C17): a generated-by-hand / template / Factory / to_code chart only logs the *)
+(* callbacks that were registered; unregistered entries, exits, inits and offers are seen   *)
+(* through miros' own spy instead (E.spycalls)                                              *)
+Static == chart.build # "dyn"
+Registered(c) == \E i \in 1..Len(chart.reg) : chart.reg[i][1] = c[2] /\ chart.reg[i][2] = c[1]
+Build == E.k = "build" /\ res' = "ok" /\ alog' = <<>> /\ did' = 0 /\ liveS' = <<>> /\ liveT' = <<>>
+         /\ UNCHANGED <<chart, started, cur, q, dq, nid, rtc, full, trc, hist>>
+
 Op ==
+  \/ Build
   \/ E.k = "start" /\ Start(E.arg, E.log)
   \/ E.k = "dispatch" /\ Dispatch(E.arg, E.log)
   \/ E.k \in {"post_fifo", "post_lifo", "defer", "scribble"} /\ External(<<E.k, E.arg>>)
@@ -43,8 +52,10 @@ ExpOutcome == IF ~Raises THEN "ok"
 
 (* the clauses; each is TRUE when the observation agrees with the specification *)
 C_Outcome == E.outcome = ExpOutcome
-C_Calls   == SigSt(Visible(E.log)) = SigSt(alog')
-C_Marks   == /\ MarksOf(Visible(E.log)) = AMarks(alog')
+C_Calls   == IF Static THEN SigSt(Visible(E.log)) = SigSt(SelectSeq(alog', Registered))
+             ELSE SigSt(Visible(E.log)) = SigSt(alog')
+C_SpyCalls == (Static /\ Instr /\ StepOp) => Visible(E.spycalls) = SigSt(alog')
+C_Marks   == /\ MarksOf(Visible(E.log)) = AMarks(IF Static THEN SelectSeq(alog', Registered) ELSE alog')
              /\ ExtOp => (Len(E.marks) = 1 /\ E.marks[1][1] = E.k)
              /\ ~ExtOp => E.marks = <<>>
 C_Cur     == started' => (E.cur = cur' /\ E.temp = cur')
@@ -55,8 +66,8 @@ C_Ret     == CASE E.k = "next_rtc" -> E.ret = res'
                [] E.k = "recall" -> (Len(E.marks) = 1 /\ E.marks[1][2] = res')
                [] OTHER -> TRUE
 C_Instr   == (started' /\ chart.host # "plain") => E.instr = Instr
-C_Rtc     == (started' /\ Instr) => E.rtc = rtc'
-C_Full    == (started' /\ Instr) => E.full = full'
+C_Rtc     == (started' /\ Instr /\ ~Static) => E.rtc = rtc'
+C_Full    == (started' /\ Instr /\ ~Static) => E.full = full'
 C_Trc     == (started' /\ Instr) => E.trc = trc'
 C_LiveS   == E.live_spy = liveS'
 C_LiveT   == E.live_trc = liveT'
@@ -76,6 +87,7 @@ Failing ==
      \cup (IF C_Trc THEN {} ELSE {"Trc"}) \cup (IF C_LiveS THEN {} ELSE {"LiveS"})
      \cup (IF C_LiveT THEN {} ELSE {"LiveT"}) \cup (IF C_Q THEN {} ELSE {"Q"})
      \cup (IF C_DQ THEN {} ELSE {"DQ"}) \cup (IF C_Did THEN {} ELSE {"Did"})
+     \cup (IF C_SpyCalls THEN {} ELSE {"SpyCalls"})
 
 Kind == IF StepOp /\ ~Raises /\ started
         THEN (IF cur' # cur \/ \E i \in 1..Len(alog') : alog'[i][1] = "EXIT_SIGNAL" THEN "tran" ELSE "stay")
